@@ -189,6 +189,9 @@ pub fn establish(toks: Vec<Tok>) -> Vec<Tok> {
 /// in : [kind, tls_handshake_timeout_ms, client_listener_timeout_ms]
 ///        kind 0: TCP connection that never sends anything; 1: half a ClientHello, then silence (both: TLS handshake timeout)
 ///             2: completed TLS handshake (HTTP/1.1), no request; 3: the same with HTTP/2 (both: client-listener timeout)
+///             4: a slow TLS handshake: the ClientHello reaches the endpoint 0.6 x the handshake timeout after the connection was made,
+///                the client's next flight 0.7 x the timeout after the client wrote it (a relay on loopback delays them): the whole handshake
+///                takes about 1.3 x the timeout. out: [handshake completed and a request was answered (0|1), milliseconds until the client knew]
 /// out: [996] | [closed by the endpoint (0|1), when: 0 = before 0.7 x the timeout, 1 = between that and 3 x + 500 ms, 2 = still open then]
 pub fn front(toks: Vec<Tok>) -> Vec<Tok> {
     let f = toks[0].clone();
@@ -214,6 +217,57 @@ pub fn front(toks: Vec<Tok>) -> Vec<Tok> {
         let Some(ep) = crate::front::start(make, crate::ctxutil::basic_hosts, None).await else {
             return vec![vec![996]];
         };
+        if f[0] == 4 {
+            // the relay: client -> endpoint segments are held back, endpoint -> client bytes pass at once
+            let Ok(relay) = tokio::net::TcpListener::bind("127.0.0.1:0").await else { return vec![vec![996]] };
+            let relay_addr = relay.local_addr().unwrap();
+            let target = ep.addr;
+            tokio::spawn(async move {
+                if let Ok((mut c, _)) = relay.accept().await {
+                    let Ok(mut s) = tokio::net::TcpStream::connect(target).await else { return };
+                    let (mut cr, mut cw) = c.split();
+                    let (mut sr, mut sw) = s.split();
+                    let up = async {
+                        let mut buf = [0u8; 16384];
+                        let mut segment = 0;
+                        loop {
+                            let n = match cr.read(&mut buf).await {
+                                Ok(0) | Err(_) => break,
+                                Ok(n) => n,
+                            };
+                            segment += 1;
+                            if segment == 1 {
+                                tokio::time::sleep(Duration::from_millis(hs * 6 / 10)).await;
+                            } else if segment == 2 {
+                                tokio::time::sleep(Duration::from_millis(hs * 7 / 10)).await;
+                            }
+                            if sw.write_all(&buf[..n]).await.is_err() {
+                                break;
+                            }
+                        }
+                    };
+                    let down = async {
+                        let _ = tokio::io::copy(&mut sr, &mut cw).await;
+                    };
+                    tokio::join!(up, down);
+                }
+            });
+            let started = std::time::Instant::now();
+            let mut served = 0u128;
+            if let Some(mut s) = crate::front::tls_connect(relay_addr, "localhost", &[b"http/1.1"]).await {
+                let _ = s.write_all(b"CONNECT _check HTTP/1.1\r\nHost: x\r\n\r\n").await;
+                let mut acc = vec![];
+                let mut buf = [0u8; 1024];
+                while !acc.windows(4).any(|w| w == b"\r\n\r\n") {
+                    match tokio::time::timeout(Duration::from_millis(2 * hs + 1000), s.read(&mut buf)).await {
+                        Ok(Ok(n)) if n > 0 => acc.extend_from_slice(&buf[..n]),
+                        _ => break,
+                    }
+                }
+                served = acc.starts_with(b"HTTP/1.1 200") as u128;
+            }
+            return vec![vec![served, started.elapsed().as_millis()]];
+        }
         let t = if f[0] <= 1 { hs } else { lt };
         let limit = Duration::from_millis(3 * t + 500);
         let mut buf = [0u8; 4096];
